@@ -94,6 +94,100 @@ CASES = [
 ]
 
 
+# ---- random helpers and use sites (seeded) ------------------------------------------------------
+class RandHelpers:
+    """Integer-valued single-return helpers g0..gN (parameters from a small pool so that names
+    collide with use-site binders, defaults, calls to earlier helpers by position / keyword,
+    nested and called lambdas, module globals) and lambdas that use them on the DATA objects."""
+
+    POOL = ["a", "b", "x", "e", "j"]
+
+    def __init__(self, rng, n):
+        self.rng = rng
+        self.sigs = []          # (name, [param], n_defaults)
+        self.defs = []
+        for i in range(n):
+            self.defs.append(self.make(i))
+
+    def intx(self, names, d, helpers=True):
+        r = self.rng
+        opts = [lambda: str(r.randint(0, 4))]
+        if names:
+            opts += [lambda: r.choice(names)] * 4
+        opts += [lambda: r.choice(["H_OFF", "H_SCALE"])]
+        if d > 0:
+            opts += [lambda: f"({self.intx(names, d - 1)} {r.choice(['+', '-', '*'])} {self.intx(names, d - 1)})",
+                     lambda: f"({self.intx(names, d - 1)} if {self.intx(names, d - 1)} > {self.intx(names, d - 1)} else {self.intx(names, d - 1)})",
+                     lambda: f"({self.intx(names, d - 1)}, {self.intx(names, d - 1)})[{r.randint(0, 1)}]",
+                     lambda: self.called(names, d - 1)]
+            if helpers and self.sigs:
+                opts += [lambda: self.call(names, d - 1)] * 3
+        if d > 0 and r.random() < 0.6:
+            opts = opts[-(4 + (3 if helpers and self.sigs else 0)):]      # prefer compound forms
+        return r.choice(opts)()
+
+    def called(self, names, d):
+        p = self.rng.choice(self.POOL)
+        return f"(lambda {p}: {self.intx([n for n in names if n != p] + [p], d)})({self.intx(names, d)})"
+
+    def call(self, names, d, arg=None):
+        r = self.rng
+        name, params, ndef = r.choice(self.sigs)
+        arg = arg or (lambda: self.intx(names, d, helpers=r.random() < 0.4))
+        k = len(params)
+        given = k if ndef == 0 or r.random() < 0.5 else k - r.randint(1, ndef)
+        vals = [arg() for _ in range(given)]
+        npos = r.randint(0, given)
+        parts = vals[:npos] + [f"{params[i]}={vals[i]}" for i in range(npos, given)]
+        if npos < given and r.random() < 0.5:
+            kw = parts[npos:]
+            r.shuffle(kw)
+            parts = parts[:npos] + kw
+        return f"{name}({', '.join(parts)})"
+
+    def make(self, i):
+        r = self.rng
+        k = r.randint(1, 3)
+        params = r.sample(self.POOL, k)
+        ndef = r.randint(0, k - 1) if r.random() < 0.4 else 0
+        body = self.intx(params, r.randint(2, 3))
+        ps = [p if j < k - ndef else f"{p}={r.randint(1, 6)}" for j, p in enumerate(params)]
+        self.sigs.append((f"g{i}", params, ndef))
+        return f"def g{i}({', '.join(ps)}):\n    return {body}\n"
+
+    def use(self):
+        """a lambda over one DATA object calling the helpers"""
+        r = self.rng
+        v = r.choice(self.POOL + ["v"])
+        leaf = lambda: r.choice([f"{v}.x", f"{v}.y", str(r.randint(0, 3))])
+        kind = r.randrange(4)
+        if kind == 0:
+            return f"lambda {v}: {self.call([], 1, leaf)}"
+        if kind == 1:
+            return f"lambda {v}: {self.call([], 1, leaf)} - {self.call([], 1, leaf)}"
+        w = r.choice(self.POOL)
+        if w == v:
+            w = "q"
+        inner_leaf = lambda: r.choice([f"{w}.pt", f"{v}.x", f"{w}.eta", str(r.randint(0, 3))])
+        if kind == 2:
+            return f"lambda {v}: {v}.jets.Select(lambda {w}: {self.call([], 1, inner_leaf)})"
+        return (f"lambda {v}: {v}.jets.Where(lambda {w}: {self.call([], 1, inner_leaf)} > {leaf()})"
+                f".Count() + {self.call([], 1, leaf)}")
+
+
+def random_cases(rng, n_helpers, n_uses):
+    rh = RandHelpers(rng, n_helpers)
+    uses, seen = [], set()
+    for _ in range(n_uses * 3):
+        u = rh.use()
+        if u not in seen and len(u) < 300:
+            seen.add(u)
+            uses.append(u)
+        if len(uses) >= n_uses:
+            break
+    return "".join(rh.defs), uses
+
+
 def run(t):
     t.rules.append("single-return helper functions and lambdas defined in a generated module "
                    "(bodies: a bare parameter, arithmetic, conditional, projection, attribute "
@@ -103,15 +197,20 @@ def run(t):
                    "argument expressions that mention names bound inside the helper or equal to "
                    "its parameters, the same helper used twice; oracle = Python calling the "
                    "helper; non-trivial = a helper with >= 1 parameter is called; distinct by text")
-    parts = [srcgen.PRELUDE, DATA_HEADER, HELPERS]
-    for i, lam in enumerate(CASES):
+    quick = t.tier == "quick"
+    rdefs, ruses = random_cases(t.rng, 8 if quick else 40, 40 if quick else 1500)
+    cases = list(CASES) + ruses
+    t.bounds.append(f"{len(ruses)} random use sites over {8 if quick else 40} random helpers (seeded)")
+    parts = [srcgen.PRELUDE, DATA_HEADER, HELPERS, rdefs]
+    for i, lam in enumerate(cases):
         parts.append(srcgen.case_block(i, f"ds.Select({lam})"))
         parts.append(f"_native({i}, ({lam}))\n")
     mod = srcgen.run_module("".join(parts), "c05")
-    helper_env = {k: getattr(mod, k) for k in dir(mod) if k.startswith(("h_", "l_"))}
+    helper_env = {k: getattr(mod, k) for k in dir(mod)
+                  if k.startswith(("h_", "l_", "H_")) or (k[0] == "g" and k[1:].isdigit())}
     for rec in mod.R:
         i = rec[0]
-        lam = CASES[i]
+        lam = cases[i]
         t.case("C05:" + lam, True, sample=lam)
         rp = {"kind": "C05", "lam": lam}
         t.contract("Select: sem(emitted lambda) == Python calling the helper")
@@ -136,7 +235,7 @@ def run(t):
                             "inlined helper computes something else", lam, want,
                             f"{got} via {ast.unparse(emitted)}", rp)
                 break
-    t.bounds.append(f"{len(CASES)} lambdas over 23 helpers, 3 data objects")
+    t.bounds.append(f"{len(CASES)} directed lambdas over 23 helpers, 3 data objects")
 
 
 def replay(payload, t):
